@@ -276,10 +276,16 @@ def wind_build(c, dtype='f'):
 
 # ---- lateral boundary ---------------------------------------------------------------------------------------
 
-def gen_bnd(rng):
+def gen_bnd(rng, under=None):
     u = camx.gen_uamiv(rng)
+    while under and len(u['species']) < 2:
+        u = camx.gen_uamiv(rng)
     u['name'] = 'BOUNDARY'
     u['nx'], u['ny'] = max(u['nx'], 3), max(u['ny'], 3)       # the edge definitions need interior cells
+    if under or (under is None and rng.random() < 0.4):
+        # species names with underscores, one the prefix of another (variables are named <EDGE>_<SPECIES>)
+        fam = rng.choice([['PM', 'PM_FINE', 'PM_10'], ['NO_3', 'NO', 'NO_3_X'], ['A_B', 'A', 'B']])
+        u['species'] = fam[:len(u['species'])]
     nt, nspec, nz = len(u['tflag']), len(u['species']), u['nz']
     u['bdata'] = [[[[camx.rand_f32_bits(rng) for _ in range((u['ny'] if e < 2 else u['nx']) * nz)] for e in range(4)]
                    for _ in range(nspec)] for _ in range(nt)]
